@@ -1096,6 +1096,7 @@ class Exec:
         self.event("loop-begin", lid)
         if cond is not None:
             self.assume(self.rvalue(cond, fr), True)
+        snap = self.snapshot(mod, fr)
         try:
             if pre_body is not None:
                 self.exec(pre_body, fr)
@@ -1110,6 +1111,11 @@ class Exec:
             broke = True
         finally:
             self.loop_ctx.pop()
+        # what one generic iteration does to the loop-carried scalars (before -> after)
+        for nm, before in snap.items():
+            after = self.snapshot(mod, fr).get(nm)
+            if isinstance(before, Lin) and isinstance(after, Lin) and before != after:
+                self.event("iter", lid, nm, before, after)
         self.event("loop-end", lid)
         self.havoc(mod, fr, lid + ".end")
         if cond is not None and not broke:
@@ -1129,6 +1135,33 @@ class Exec:
         self.exec(n.get("beginstmt"), fr)
         self.exec(n.get("endstmt"), fr)
         self.loop(n, fr, n.get("cond"), n.get("inc"), n.get("body"), pre_body=n.get("loopvar"))
+
+    def snapshot(self, roots, fr):
+        """current values of the loop-carried scalar locals / fields"""
+        out = {}
+        for (did, name), fields in roots.items():
+            if did == "this":
+                o = fr.this
+                if isinstance(o, Obj):
+                    for f, v in o.fields.items():
+                        if isinstance(v, Lin):
+                            out["this." + f] = v
+                continue
+            v = fr.vars.get(did)
+            if isinstance(v, RefBox):
+                v = v.target
+                if isinstance(v, Loc):
+                    try:
+                        v = self.load(v)
+                    except Unsupported:
+                        continue
+            if isinstance(v, Lin):
+                out[name] = v
+            elif isinstance(v, Obj):
+                for f, x in v.fields.items():
+                    if isinstance(x, Lin):
+                        out[name + "." + f] = x
+        return out
 
     def havoc(self, roots, fr, tag):
         for (did, name), fields in roots.items():
